@@ -41,8 +41,8 @@ PLAN = {
     ),
     "C07": dict(
         quick=["hostile4", ("notready4", dict(cap=600)), ("over5_d", dict(cap=500)), "extra:teardown", "extra:teardown_c", "extra:teardown_k1",
-               ("stress:hostile4", dict(rounds=150, threads=4)), "withline:1"],
-        thorough=["hostile4", "hostile5", "notready4", "over5_d", "over5_c", "extra:teardown", "extra:teardown_c", "extra:teardown_k1", "withline:1"],
+               ("stress:hostile4", dict(rounds=150, threads=4)), "withline:1", "overlap:1"],
+        thorough=["hostile4", "hostile5", "notready4", "over5_d", "over5_c", "extra:teardown", "extra:teardown_c", "extra:teardown_k1", "withline:1", "overlap:1"],
         vacuity=[("hostile4", ["FixEmptyToken"]), ("hostile4", ["FixReentrant"]), ("hostile4", ["FixStackFull"]), ("over5_d", [], "force-blocks")],
     ),
     "C08": dict(
